@@ -30,6 +30,9 @@ const (
 	findingUnionTypename = "C02-plan-union-typename-hoisted"
 	findingCopyPossible  = "C02-plan-object-copy-drops-possible-types"
 	findingConcreteNoTypename = "C02-concrete-object-without-typename-drops-conditioned-fields"
+	findingMergeScalars       = "C02-plan-merge-scalars-mixes-type-conditions"
+	findingMergeNestedList    = "C02-plan-merge-nested-list-drops-selection"
+	findingNestedAbstract     = "C02-plan-nested-abstract-fragment-loses-outer-condition"
 )
 
 var resolvablePart = pbt.Part[Case]{Name: "resolvable", Quick: 30000, Thorough: 500000, Gen: genCase(false),
@@ -65,12 +68,14 @@ func genCase(rootReplace bool) func(t *rapid.T) Case {
 				c.GenErr = problem
 				return c
 			}
-			if steer && attempt < 6 && m.unionTypenameClass() {
-				// known planner finding: redraw the operation, count the exclusion once
-				if len(c.Steered) == 0 {
-					c.Steered = append(c.Steered, findingUnionTypename)
+			if steer && attempt < 10 {
+				// known planner findings: redraw the operation, count each exclusion once
+				if id := m.opClass(); id != "" {
+					if !contains(c.Steered, id) {
+						c.Steered = append(c.Steered, id)
+					}
+					continue
 				}
-				continue
 			}
 			break
 		}
@@ -223,11 +228,13 @@ func checkCase(c Case, o *pbt.Rec, engine bool) pbt.Verdict {
 	}
 	o.Labelf("muts=%d", len(c.Muts))
 
-	rootReplaced := j.k != jObj
+	rootReplaced := j.k != jObj && !(engine && r.requests == 0) // no fetch: j was never consulted
 	jEff := j
+	if j.k != jObj {
+		jEff = jobj()
+	}
 	if rootReplaced {
 		o.Label("root-replaced:" + j.k.String())
-		jEff = jobj()
 	}
 	offs := m.allOffenders(jEff)
 	nontrivial := labelOffenders(o, offs) || m.maxTypeConds() >= 2
@@ -306,6 +313,10 @@ func relevantUnfaithful(uf []unfaithful, res result) []unfaithful {
 			if v.kind == "errors-on-well-typed" || hasPrefixPath(v.path, u.p) {
 				rel = true
 			}
+			// a null that nothing in j explains may stem from a plan that demands more below it
+			if (v.kind == "replaced-without-offender" || v.kind == "not-nearest-nullable") && hasPrefixPath(u.p, v.path) {
+				rel = true
+			}
 		}
 		for _, r := range res.uncovered {
 			if hasPrefixPath(r.path, u.p) || hasPrefixPath(u.p, r.path) {
@@ -321,13 +332,20 @@ func relevantUnfaithful(uf []unfaithful, res result) []unfaithful {
 
 // recognisePlanFinding maps one plan/operation disagreement to a recorded planner finding.
 func recognisePlanFinding(u unfaithful) string {
+	keyDiff := u.kind == "key-missing-in-plan" || u.kind == "key-extra-in-plan"
 	switch {
-	case (u.kind == "key-missing-in-plan" || u.kind == "key-extra-in-plan") && u.typenameField && u.unionTNClass:
+	case keyDiff && u.typenameField && u.level.unionTypename():
 		return findingUnionTypename
 	case u.kind == "key-missing-in-plan" && u.absentTypename:
 		return findingConcreteNoTypename
 	case u.kind == "possible-types" && u.emptyPossible:
 		return findingCopyPossible
+	case u.kind == "key-missing-in-plan" && u.crossParent && u.nestedListItem && !u.planHasKey:
+		return findingMergeNestedList
+	case keyDiff && u.crossAbove && u.planParentConds:
+		return findingMergeScalars
+	case keyDiff && u.level.nestedAbstract > 0:
+		return findingNestedAbstract
 	}
 	return ""
 }
@@ -579,118 +597,4 @@ func (m *model) maxTypeConds() int {
 		walk(fr.SelectionSet)
 	}
 	return best
-}
-
-
-// levelInfo describes one selection level (fragments followed, sub-fields not entered).
-type levelInfo struct {
-	abstractFrags int  // fragments whose type condition is an interface or union
-	unionFrags    int  // fragments whose type condition is a union
-	unionTypename int  // __typename selections whose nearest enclosing type is a union
-}
-
-func (m *model) levelInfo(sets []gast.SelectionSet, declared string) levelInfo {
-	isKind := func(name string, k gast.DefinitionKind) bool {
-		d := m.s.Types[name]
-		return d != nil && d.Kind == k
-	}
-	var l levelInfo
-	var scan func(set gast.SelectionSet, encl string, depth int)
-	cond := func(c string) {
-		if isKind(c, gast.Union) {
-			l.unionFrags++
-			l.abstractFrags++
-		} else if isKind(c, gast.Interface) {
-			l.abstractFrags++
-		}
-	}
-	scan = func(set gast.SelectionSet, encl string, depth int) {
-		if depth > 12 {
-			return
-		}
-		for _, sel := range set {
-			switch x := sel.(type) {
-			case *gast.Field:
-				if x.Name == "__typename" && isKind(encl, gast.Union) {
-					l.unionTypename++
-				}
-			case *gast.InlineFragment:
-				c := x.TypeCondition
-				if c == "" {
-					c = encl
-				} else {
-					cond(c)
-				}
-				scan(x.SelectionSet, c, depth+1)
-			case *gast.FragmentSpread:
-				if fd := m.doc.Fragments.ForName(x.Name); fd != nil {
-					cond(fd.TypeCondition)
-					scan(fd.SelectionSet, fd.TypeCondition, depth+1)
-				}
-			}
-		}
-	}
-	for _, s := range sets {
-		scan(s, declared, 0)
-	}
-	return l
-}
-
-// unionTypenameClass is the applicability half of the recogniser of findingUnionTypename: some
-// abstract-typed field has, on its own selection level, a fragment on an abstract type (so
-// plan's abstract selection rewriter runs) and a __typename selection whose nearest enclosing
-// type is a union.
-func (m *model) unionTypenameClass() bool {
-	found := false
-	var walk func(set gast.SelectionSet)
-	walk = func(set gast.SelectionSet) {
-		for _, sel := range set {
-			switch x := sel.(type) {
-			case *gast.Field:
-				if x.Definition != nil && len(x.SelectionSet) > 0 {
-					named := x.Definition.Type
-					for named.Elem != nil {
-						named = named.Elem
-					}
-					if d := m.s.Types[named.NamedType]; d != nil && d.IsAbstractType() {
-						l := m.levelInfo([]gast.SelectionSet{x.SelectionSet}, named.NamedType)
-						if l.abstractFrags > 0 && l.unionTypename > 0 {
-							found = true
-						}
-					}
-				}
-				walk(x.SelectionSet)
-			case *gast.InlineFragment:
-				walk(x.SelectionSet)
-			}
-		}
-	}
-	walk(m.op.SelectionSet)
-	for _, fr := range m.doc.Fragments {
-		walk(fr.SelectionSet)
-	}
-	return found
-}
-
-// concreteNoTypenameClass is the applicability half of the recogniser of
-// findingConcreteNoTypename: an object at a concrete-typed position has no string __typename
-// while its selection level contains a fragment on a union (normalization keeps such fragments,
-// the plan then carries type conditions inside an object whose type is statically known).
-func (m *model) concreteNoTypenameClass(root *jv) bool {
-	for _, p := range m.positions(root) {
-		if p.t.Elem != nil || p.node == nil || p.node.k != jObj || p.parent == nil {
-			continue
-		}
-		def := m.s.Types[p.t.NamedType]
-		if def.Kind != gast.Object {
-			continue
-		}
-		if tn := p.node.get("__typename"); tn != nil && tn.k == jStr {
-			continue
-		}
-		if m.levelInfo(p.sets, def.Name).unionFrags > 0 {
-			return true
-		}
-	}
-	return false
 }
